@@ -261,6 +261,31 @@ H("c18_q_decibel_4", "C18", "c18::decibel::<4, _>", "Db<f32, ElectricPotential>:
   "unaltered, 1 V/mV/uV), other suffixes -> Linear(plain conversion) or error, bare number -> None(number)",
   "suffix <= 4 alphanumeric bytes; number fixed to 1.5", cap_s=900, mem_gb=5, stubset="float", unwind=8)
 
+# ---------------------------------------------------------------------------- C19 (K-expr; also C01)
+for n, tier in ((0, "q"), (1, "q"), (2, "q"), (3, "q"), (4, "q"), (5, "q"), (6, "q"), (7, "t"), (8, "t")):
+    H(f"c19_{tier}_chan_step_n{n}", "C19", f"c19::chan_step::<{n}, _>",
+      f"one ChannelList iteration step from an arbitrary state (remaining {n} symbolic bytes, first-entry flag) == "
+      f"reference SCPI-99 8.3.2 step: entry kind, dimension counts, path text, cursor; listed corruptions give an error", f"remaining expression exactly {n} bytes, every byte value",
+      cap_s=(900 if tier == "q" else 3600), mem_gb=5, unwind=max(n + 3, 8), also=["C01", "C14"], sample=(n == 3))
+    H(f"c19_{tier}_num_step_n{n}", "C19", f"c19::num_step::<{n}, _>",
+      f"one NumericList iteration step from an arbitrary state (remaining {n} symbolic bytes, first-entry flag) == "
+      f"reference SCPI-99 8.3.3 step: entry kind, exact number texts, cursor; listed corruptions give an error",
+      f"remaining expression exactly {n} bytes, every byte value", cap_s=(900 if tier == "q" else 3600), mem_gb=5,
+      unwind=max(n + 3, 8), also=["C01", "C14"])
+for n, tier in ((1, "q"), (2, "q"), (3, "q"), (4, "q"), (5, "q"), (6, "t"), (7, "t")):
+    H(f"c19_{tier}_spec_iter_n{n}", "C19", f"c19::spec_iter::<{n}, _>",
+      f"a channel spec whose text is ANY {n}-byte run of digits, signs and '!': iterating it never panics (C01); when the "
+      f"text is well formed the values are its numbers in order, then None; dimension count == text",
+      f"spec text exactly {n} bytes over [0-9+-!]", cap_s=(900 if tier == "q" else 3600), mem_gb=5, unwind=n + 4,
+      also=["C01"], sample=(n == 3))
+for n, dim, tier in ((1, 1, "q"), (2, 1, "q"), (3, 2, "q"), (4, 2, "q"), (5, 3, "q"), (5, 2, "t"), (6, 3, "t")):
+    H(f"c19_{tier}_spec_convert_n{n}_d{dim}", "C19", f"c19::spec_convert::<{n}, {dim}, _>",
+      f"a well-formed channel spec of {n} bytes converted to a {dim}-tuple of isize: every element is the corresponding "
+      f"number of the text; other dimensions are refused", f"well-formed spec text of exactly {n} bytes",
+      cap_s=(900 if tier == "q" else 3600), mem_gb=5, unwind=n + 4, also=["C01"])
+H("c19_q_from_token_n4", "C19", "c19::from_token::<4, _>", "ChannelList / NumericList from an expression token: @ prefix, "
+  "start state; other element types -104", "4 symbolic bytes", cap_s=300, mem_gb=3, unwind=8, also=["C08"])
+
 # ---------------------------------------------------------------------------- C20
 ENUMS = {"E1": "BINary|REAL|ASCii1|ASCii2|L125", "E2": "VOLTage|CURRent", "E3": "ALPHa(u8)|BETA3(u16)|GAMMa",
          "E4": "CHANnel1|CHANnel2|CHANnel10|X|MAXimum|OFF"}
@@ -463,6 +488,23 @@ PROPS["C04"] = {
     "level_note": "Trusted: Kani/CBMC/CaDiCaL; the reference step in oracles/lexer.rs (unit-tested at setup); concrete "
                   "length per instance; class-representative first bytes for the long instances (sanctioned by the "
                   "property's own quantifier).",
+}
+
+PROPS["C19"] = {
+    "bounds": {"quick": "one iteration step from an arbitrary (remaining bytes, first flag) state with 0..6 remaining bytes "
+                        "of any value; channel spec texts of 1..5 bytes over [0-9+-!] (iteration, values, tuple conversions)",
+               "thorough": "steps up to 8 remaining bytes; spec texts up to 7 bytes"},
+    "outside": "remaining expressions longer than the bound; numbers beyond isize (need > 18 digits); malformations the "
+               "property does not list (trailing comma, `1:`, `1!`, sign/dot without digits, white space, path name glued "
+               "to other text) carry no requirement in the reference; module channels (unimplemented in the library)",
+    "assumptions": ["the iterator state is exactly (remaining bytes, first flag) - both are public fields, so an arbitrary "
+                    "state is installed directly"],
+    "level_text": "Bounded model checking, differential against a reference parser of the SCPI-99 8.3 list grammar, one "
+                  "iteration step from an arbitrary iterator state with the remaining bytes symbolic (so every position of "
+                  "every list whose remainder fits the bound is covered), plus value/tuple obligations on well-formed "
+                  "specs; Kani's panic/overflow checks make the same queries decide C01's totality for these iterators.",
+    "level_note": "Trusted: Kani/CBMC/CaDiCaL; oracles/lists.rs (unit-tested on the repository's own list test inputs); "
+                  "real lexical-core integer parsing inside.",
 }
 
 # properties whose check is still being built (kept current as the work proceeds)
